@@ -6,31 +6,35 @@ VERIF = os.path.dirname(os.path.dirname(os.path.abspath(__file__)))
 
 STORE_NOTE = ("Trusted base: TLC; the Go projection (harness/internal/project: raw bbolt walk + own decoder) and the replayer glue; "
               "bbolt's own transaction semantics. The model is bounded (2-3 ids, small value universes, <= 2-3 calls per transaction); "
-              "behaviours replayed against the code are TLC-generated random walks of the same Next, not all of them.")
+              "behaviours replayed against the code are TLC-generated random walks of the same Next, not all of them. In the other direction "
+              "(StoreTrace.tla) executions recorded from a random driver over the real stores (5 people x 3 teams, all features, hostile ids) are accepted "
+              "by TLC iff every recorded call is a step of the specification with exactly the recorded result and state; the recorder's rendering of the "
+              "file as a model state (storerun.DbJSON) is trusted, a binding self-test corrupts one recorded fact and requires the rejection of that line.")
 
 CHECKS = {
     "C03": dict(cat="model_checking", ref="DESIGN.md 5/C03",
                 text="Store.tla keeps the unique/set index buckets as explicit state maintained by the code's capture-old/delete-old/check/put-new protocol; TLC "
                      "checks exhaustively (bounded) that they mirror the entities in every reachable state, and TLC-generated behaviours are replayed on the real "
                      "stores with the raw index buckets, the index read API and the error class compared after every call.",
-                technique="TLA+ model (Store/StoreSys) checked with TLC + TLC-generated behaviours replayed on the real library (state comparison per step)"),
+                technique="TLA+ model (Store/StoreSys) checked with TLC + TLC-generated behaviours replayed on the real library (state comparison per step) + "
+                          "recorded executions of the real library validated by TLC against the same actions (StoreTrace.tla)"),
     "C04": dict(cat="model_checking", ref="DESIGN.md 5/C04",
                 text="One exhaustive TLC run per fk wiring (fk index nullable/non-nullable/cascade, fk constraint restrict/cascade): back-reference sets exact, "
                      "targets exist, delete restricts or cascades exactly; generated behaviours replayed with plain and with hostile ids (quotes, backslashes, keywords).",
-                technique="TLA+ model checked with TLC per wiring + replay of generated behaviours with a hostile id table"),
+                technique="TLA+ model checked with TLC per wiring + replay of generated behaviours with a hostile id table + recorded executions validated by TLC (StoreTrace.tla)"),
     "C05": dict(cat="model_checking", ref="DESIGN.md 5/C05",
                 text="Both sides of each link set and ref-count are separate model variables written by paired steps; TLC checks symmetry over all histories and, in "
                      "LinkMerge.tla, that the SetLinks merge (transcribed loop by loop) leaves exactly the requested set for all (current, requested) pairs; replay compares "
                      "both raw buckets, counts and return values.",
-                technique="TLA+ model + transcribed merge algorithm checked with TLC; replay of generated behaviours"),
+                technique="TLA+ model + transcribed merge algorithm checked with TLC; replay of generated behaviours; recorded executions validated by TLC (StoreTrace.tla)"),
     "C06": dict(cat="model_checking", ref="DESIGN.md 5/C06",
                 text="NoGhosts (an absent id occurs in no variable) is an invariant of the all-features model; replay compares the complete raw projection after every call, "
                      "so any residue of a deleted id in the file is a difference, and re-created ids continue under full comparison.",
-                technique="TLA+ invariant checked with TLC + replay with whole-file projection"),
+                technique="TLA+ invariant checked with TLC + replay with whole-file projection and raw residue scan + recorded executions validated by TLC (StoreTrace.tla)"),
     "C07": dict(cat="model_checking", ref="DESIGN.md 5/C07",
                 text="Fault enumeration is the model's Next: every failure kind at every position of bodies of <= 3 calls, through Update, Batch and nested Update; replay "
                      "requires a non-nil error of an allowed class, a logically identical file after the roll-back and no listener/commit-action/tx-complete invocation.",
-                technique="TLA+ transaction model (fault enumeration by Next) + replay with before/after file comparison"),
+                technique="TLA+ transaction model (fault enumeration by Next) + replay with before/after file comparison + recorded executions validated by TLC (StoreTrace.tla)"),
     "C08": dict(cat="model_checking", ref="DESIGN.md 5/C08",
                 text="The model accumulates the events of the successful calls of a transaction and delivers them on Commit only; replay registers eight listener styles on "
                      "three stores and compares the multiset of (store, type, id, state) each style received with the model, per transaction.",
@@ -38,10 +42,10 @@ CHECKS = {
     "C15": dict(cat="model_checking", ref="DESIGN.md 5/C15",
                 text="Child data is a separate model variable; calls are routed through either store as in the code; TLC checks child-within-parent and shared-index "
                      "invariants, replay compares what FindById/LoadById/IsEntityPresent/IterateIds/IterateValidIds/QueryIds show through the child store (plain and Extended()).",
-                technique="TLA+ model checked with TLC + replay through both stores"),
+                technique="TLA+ model checked with TLC + replay through both stores (incl. DeleteWhere) + recorded executions validated by TLC (StoreTrace.tla)"),
     "C16": dict(cat="model_checking", ref="DESIGN.md 5/C16",
                 text="Action properties SysFlagFixed / OrdinaryCtxCannotTouchSystem checked by TLC over histories mixing contexts; replay passes the flag toggled on every update.",
-                technique="TLA+ action properties checked with TLC + replay"),
+                technique="TLA+ action properties checked with TLC + replay + recorded executions validated by TLC (StoreTrace.tla)"),
 }
 
 QNOTE = ("Trusted base: TLC evaluating Query.tla; the renderer (filter record -> ZitiQL text) and dataset loader of the harness; the value "
@@ -118,7 +122,10 @@ CHECKS.update({
     "C17": dict(cat="model_checking", ref="DESIGN.md 5/C17", note="Trusted base: TLC; the content-as-function-of-version driver and logical file comparison of the harness; bbolt. Uses the verif hook points restore.closed / restore.renamed / restore.opened as scheduler gates.",
                 text="DbLife.tla models the sequential life cycle (snapshot marks the copy, restore, snapshot id, timeline id bookkeeping) with action properties checked by TLC "
                      "and every bounded behaviour replayed with whole-file comparison; the reload-lock protocol is model checked over all interleavings and bound to the code by a "
-                     "gated schedule that starts transactions exactly during the file swap, plus a stress of concurrent transactions against repeated restores.",
+                     "gated schedule that starts transactions exactly during the file swap, plus a stress of concurrent transactions against repeated restores. A restore is two "
+                     "steps (transfer window, swap): the replay holds a real RestoreFromReader in its window with a gated reader while it executes the calls the behaviour "
+                     "puts there; two overlapping timeline requests after a restore must be explainable by the atomic action in some order. (Migration.tla and the nested "
+                     "reload-lock observation ride along as notes outside the listed properties.)",
                 technique="TLA+ model (sequential machine + lock protocol) checked by TLC; behaviours replayed on DbImpl; hook-gated schedule and stress for the concurrent clause"),
 })
 
